@@ -1195,6 +1195,12 @@ MUTANTS = [
         (ETS_H, "        if( s.empty() ) {\n            if( s.claim(k) ) {\n                s.ptr = found;\n                return found;\n            }\n        }", "        if( s.empty() ) {\n            s.ptr = found;\n            if( s.claim(k) ) {\n                return found;\n            }\n        }")]),
     dict(name='c19-root-store', prop='C19', clause='D5', edits=[
         (ETS_H, "                if( my_root.compare_exchange_strong(new_r, a) ) break;", "                if( my_root.load(std::memory_order_relaxed) == new_r ) { my_root.store(a, std::memory_order_release); break; }")]),
+    dict(name='c19-seed3-per-instance-key-survives-clear', prop='C19', clause='D5', edits=[(ETS_H, """    void table_clear() {
+        destroy_key();
+        create_key();
+        super::table_clear();""", """    void table_clear() {
+        set_tls(nullptr);
+        super::table_clear();""")]),
     # ---------------------------------------------------------------- C20
     dict(name='c20-notify-load-store', prop='C20', clause='D1', edits=[
         (SC_H, "        return m_stack_state.exchange(stack_state::notified) == stack_state::suspended;",
